@@ -241,6 +241,24 @@ PROPS = {
         assumptions=["CSS unescaping in the model follows CSS Syntax Level 3 for the generated canonical escape forms"],
         floors=(1_000_000, 50_000, 20_000_000, 300_000),
     ),
+    "C18": simple(
+        rule="four monitors. perm (exhaustive): one filter set with 256 sub-lists (one per list permission q) each requesting 256 scriptlets (one "
+             "per resource permission p) on its own host; injected <=> p & !q == 0 for all 65 536 pairs; $redirect to each of the 256 resources "
+             "serves a data URL only for p == 0. graph: random resource graphs (3-8 nodes, name/alias references, cycles, missing nodes, "
+             "permissioned nodes at any depth, fn/javascript nodes) with 2-3 lists of different permissions requesting scriptlets for the SAME "
+             "page, queried 8 times each (hash-map iteration order varies per call); safety: an invocation appears only if every reachable "
+             "node's bits are within the union of the masks of the lists that requested that very injection; a permissioned body appears only if "
+             "some requester reaching it holds its bits; completeness: a fully permitted, fully resolvable injection appears; no definition twice. "
+             "args: 0-4 intended arguments built from hostile atoms (quotes, backslashes, C0 controls, DEL, U+2028/9, BOM, $-sequences, "
+             "</script>, comment markers, non-ASCII, astral), spelt unambiguously (plain, escaped commas, three quote styles, three separator "
+             "spacings); the invocation must lex as name( strict-JSON-strings ) and decode to exactly the intended list. unhide: identical-text "
+             "and blanket scriptlet exceptions. non-trivial: perm p != 0 and permitted; graph has a permissioned node reachable from >= 2 "
+             "requested scriptlets; argument list needs escaping; an exception is present.",
+        assumptions=["identical injections requested by several lists are judged against the union of those lists' masks (the merge is the documented mechanism)",
+                     "a lone {...} argument yields no injection by documented design and is not generated",
+                     "escaped-quote spellings inside quoted arguments are not generated (their intended value is not settled by the statement)"],
+        floors=(400_000, 40_000, 8_000_000, 400_000),
+    ),
 }
 
 # ---------------------------------------------------------------------------------------------
@@ -366,6 +384,14 @@ MANIFEST_TEXT = {
         "note": "Exotic identifiers are held only to the partition clause so that no correct implementation is flagged.",
         "technique": "runtime monitoring: reference key model + partition invariant over API observations",
         "design_ref": "DESIGN.md §4.17",
+    },
+    "C18": {
+        "text": "Runtime monitors on the real cosmetic/scriptlet pipeline: the exhaustive 256x256 permission matrix, randomised dependency graphs with "
+                "competing list permissions on one page observed under many hash-iteration orders (safety and completeness oracles), and hostile "
+                "argument strings whose emitted literals are re-lexed by a strict JSON string lexer and compared with the intended arguments.",
+        "note": "Function-style scriptlets only for argument encoding (as the statement says); template-style substitution is outside it.",
+        "technique": "runtime monitoring: exhaustive small matrix + randomized safety/completeness oracles + output re-parsing",
+        "design_ref": "DESIGN.md §4.18",
     },
 }
 
